@@ -27,7 +27,7 @@ def validate(ctx, trace, specs, what):
             pass
         truncated = '"Truncated"' in line
     for spec in specs:
-        r = vlib.validate_trace(ctx, spec, spec + ".cfg", trace, name="%s-%s" % (spec, what), timeout=1500, heap="12g")
+        r = vlib.validate_trace(ctx, spec, spec + ".cfg", trace, name="%s-%s" % (spec, what), timeout=1500, heap="12g", linear=True)
         if r["viols"]:
             seen = set()
             for v in r["viols"]:
